@@ -228,7 +228,7 @@ var advances = []time.Duration{300 * time.Millisecond, 900 * time.Millisecond, 1
 func clientAddr(k int) string { return fmt.Sprintf("10.%d.%d.%d:5%03d", k%7, (k/7)%251, k%253, k%1000) }
 
 func TestC02Failover(t *testing.T) {
-	sub := lab.Sub("failover-histories", "rapid histories over {eject(i,window) via MarkBackendUnhealthy, incident (all / all but one / a drawn subset of the pool ejected at once with one window), advance, add (sometimes under a name already in use), remove(name), set_strategy, request(client), hold (request parked in a backend), release, spin(k), steady (a request every 30 ms from 300 ms before to 200 ms after the next window expiry), inflight (a backend's in-flight count set to 0/1/99/100/101/500)} "+
+	sub := lab.Sub("failover-histories", "rapid histories over {eject(i,window) via MarkBackendUnhealthy, incident (all / all but one / a drawn subset of the pool ejected at once with one window), probe-straddles-ejection (with active checks on: a probe whose 200 is late is under way when its backend is ejected; the answer arrives inside the window), advance, add (sometimes under a name already in use), remove(name), set_strategy, request(client), hold (request parked in a backend), release, spin(k), steady (a request every 30 ms from 300 ms before to 200 ms after the next window expiry), inflight (a backend's in-flight count set to 0/1/99/100/101/500)} "+
 		"against the real LoadBalancer.ServeHTTP in virtual time (L1 scripted backends, all answer 200 to requests and to probes), 5 strategies x pools of 1..6 x weights 1..6 "+
 		"x health-check configuration {active checks off / on with interval 2-3600 s (shorter and far longer than the windows), timeout 1-5 s, 4 probe paths; Helios's own ticker and prober run} x {passive checks off / on, threshold 1-5, unhealthy_timeout 1-60 s} x {circuit breaker off / on}; oracle: served backend is outside every unhealthy window the harness issued, "+
 		"and 'no healthy backend' 503 only when every pool member is inside one; non-trivial = history with a request issued while 1 <= ejected < pool size")
@@ -259,6 +259,7 @@ func TestC02Failover(t *testing.T) {
 		partial := 0
 		requests := 0
 		afterExpiry, afterOutage := 0, 0
+		straddled := 0
 		dupNames, switched, steady, loaded := false, false, false, false
 		inflight := map[string]int{}
 		fn := lab.NewFakeNet()
@@ -344,8 +345,35 @@ func TestC02Failover(t *testing.T) {
 					}
 				}
 				for i := 0; i < steps && viol == ""; i++ {
-					k := rapid.IntRange(0, 103).Draw(rt, "op")
+					k := rapid.IntRange(0, 106).Draw(rt, "op")
 					switch {
+					case k >= 104: // a health probe is under way (its answer, a 200, is late) while its backend is ejected; the answer arrives inside the window
+						if len(w.names) == 0 || !hc.Active {
+							continue
+						}
+						i := rapid.IntRange(0, len(w.names)-1).Draw(rt, "victim")
+						d := rapid.SampledFrom(windows).Draw(rt, "window")
+						name := w.names[i]
+						host := w.host[name]
+						fn.SetProbeBehaviour(host, lab.Park)
+						// wait for Helios's own prober to send the next probe to it (it skips a backend inside a window)
+						for waited := time.Duration(0); fn.ParkedProbes(host) == 0 && waited <= time.Duration(hc.IntervalS)*time.Second; waited += 100 * time.Millisecond {
+							time.Sleep(100 * time.Millisecond)
+							synctest.Wait()
+						}
+						fn.SetProbeBehaviour(host, lab.Good)
+						if fn.ParkedProbes(host) == 0 {
+							hist = append(hist, fmt.Sprintf("probe-straddles-ejection(%s): no probe came", name))
+							continue
+						}
+						w.settle()
+						w.eject(name, d) // well within the probe timeout (>= 1 s) of the parked probe
+						for fn.ParkedProbes(host) > 0 {
+							fn.ReleaseProbe(host, lab.Good)
+							synctest.Wait()
+						}
+						straddled++
+						hist = append(hist, fmt.Sprintf("probe-straddles-ejection(%s,%v)", name, d))
 					case k < 30: // request
 						c := rapid.IntRange(0, 40).Draw(rt, "client")
 						hist = append(hist, fmt.Sprintf("req(c%d)", c))
@@ -507,6 +535,9 @@ func TestC02Failover(t *testing.T) {
 			}
 			if afterExpiry > 0 {
 				labels = append(labels, "active-checks:first-request-after-a-window-ended")
+			}
+			if straddled > 0 {
+				labels = append(labels, "active-checks:probe-answer-arrives-inside-a-window")
 			}
 			if afterOutage > 0 {
 				labels = append(labels, "active-checks:first-request-after-whole-pool-windows-ended")
